@@ -6,7 +6,7 @@ one() {
   d=$1; id=$(basename $(dirname $d)); kind=$(basename $d)
   [ -f $d/patch.diff ] || { echo "$id-$kind NO-PATCH"; return; }
   if [ ! -f $d/verify.log ] || [ -n "$FORCE" ]; then
-    if [ "$kind" = "break" ]; then /verif/tools/verify_seed.sh $d r_${id}_$kind > $d/verify.log 2>&1; else /verif/tools/verify_refactor.sh $d r_${id}_$kind > $d/verify.log 2>&1; fi
+    if [[ "$kind" == break* ]]; then /verif/tools/verify_seed.sh $d r_${id}_$kind > $d/verify.log 2>&1; else /verif/tools/verify_refactor.sh $d r_${id}_$kind > $d/verify.log 2>&1; fi
   fi
   suite=$(grep -A1 "== suite with change" $d/verify.log | tail -1 | cut -d, -f1-2)
   dw=$(grep -A4 "== demo with change" $d/verify.log | grep "^exit=" | head -1)
@@ -16,4 +16,4 @@ one() {
   echo "$id-$kind suite=[$suite] with:$dw without:$do alarms=[$caught] $first"
 }
 export -f one
-ls -d $ROOT/C*/break $ROOT/C*/refactor1 $ROOT/C*/refactor2 2>/dev/null | xargs -P $JOBS -I{} bash -c 'one {}'
+ls -d $ROOT/C*/break $ROOT/C*/breakA $ROOT/C*/breakB $ROOT/C*/refactor1 $ROOT/C*/refactor2 2>/dev/null | xargs -P $JOBS -I{} bash -c 'one {}'
